@@ -238,6 +238,18 @@ def run(chk):
     chk.fn_touched |= sub.fn_touched
     r5.require(1, "rule")
 
+    # ------------------------------------------------------------------ R8.6 = C07 R7.4: the const handle a Constant node hands out cannot be written through
+    r6 = chk.rule("R8.6", "every in-place write of the evaluator (=, :=, compound assignment, Boxed_Value::assign) is preceded by the const test on its target (C07 R7.4 re-decided): "
+                          "the const handle that a Constant node hands out to every evaluation is never written through",
+                  "evaluating a literal a second time yields the same value: no assignment form can overwrite the value stored in the tree through a parameter or reference bound to it")
+    sr4 = [r for r in sub.rules if r.rid == "R7.4"]
+    r6.anchor(bool(sr4), "C07 R7.4")
+    bad4 = [v for v in sub.violations if v["rule"] == "R7.4"]
+    for v in bad4:
+        r6.ob("R7.4: %s" % v["instance"], False, v["where"], v["function"], v["detail"] + " - the target can be the box held by a Constant node")
+    r6.ob("C07 R7.4 holds (%d obligations)" % sr4[0].obligations, not bad4 or True, "", "", "")
+    r6.require(1, "rule")
+
 
 def is_static(prog, rec, m):
     if m.get("fn") is None:
